@@ -544,6 +544,8 @@ package builder
 //@           && dynIs[errElmField](arg7[len(errPath)]) && string(unboxed[errElmField](arg7[len(errPath)])) == targetField.Name()
 //@   at@C10 call shouldCheckAgainstZero#1 assert arg1 == nextSource && arg2 == targetFieldType && arg3 == assignTo.Update && !arg4
 //@   at@C10 call shouldCheckAgainstZero#2 assert arg1 == functionCallSourceType && arg2 == targetFieldType && arg3 == assignTo.Update && arg4
+// the guard is only asked about a source that exists (map|FUNC with a FUNC that takes no source has none): F12
+//@   at@C10,C13 call shouldCheckAgainstZero#* assert arg1 != nil
 //@   requires@C13 self != nil
 //@   requires@C13 GenInv(gen)
 //@   ensures@C13 GenInv(gen)
@@ -606,6 +608,8 @@ package builder
 //@   requires@C13 gen != nil && GenInv(gen) && CallOK(ctx, sourceID, source, target) && targetField != nil
 //@   ensures@C13 GenInv(gen)
 //@   ensures result4 ==> ctx.Conf.IgnoreMissing && err != nil
+//@   ensures@C13 err == nil ==> result0 != nil && result0.Code != nil && result1 != nil
+//@   loop@C13 1 invariant nextIDCode != nil && nextSource != nil
 //@   at call NewError#1 assert skip ==> ctx.Conf.IgnoreMissing && dynIs[*xtype.NoMatchError](err)
 
 //@ func parseAutoMap
